@@ -34,6 +34,14 @@ fn count_scalars(ctx: &mut Ctx, v: &RVal) {
     }
 }
 
+/// the root table with its keys wrapped in `Spanned` (wrapped values and deeper levels: C14, where
+/// finding D19 -- no span for a table that has no token of its own -- is recorded)
+type SpannedRoot = std::collections::HashMap<toml::Spanned<String>, toml::Value>;
+
+fn spanned_root_to_r(t: &SpannedRoot) -> RVal {
+    RVal::table(t.iter().map(|(k, v)| (k.get_ref().clone(), obs::toml_value_to_r(v))).collect())
+}
+
 /// The four observers of the real code. Each yields Ok(tree) or Err(error text).
 pub fn observe(text: &str) -> Result<Vec<(&'static str, Result<RVal, String>, KeyOrder)>, (String, String)> {
     guarded(|| {
@@ -47,6 +55,9 @@ pub fn observe(text: &str) -> Result<Vec<(&'static str, Result<RVal, String>, Ke
             // the same trees read through the accessor methods, lookups and reverse iterators
             ("DocumentMut by accessors", toml_edit::DocumentMut::from_str(text).map(|d| obs::edit_table_to_r_by_accessors(d.as_table())).map_err(|e| e.to_string()), KeyOrder::ExactOrAlt),
             ("toml::Table by accessors", text.parse::<toml::Table>().map(|t| obs::toml_table_by_accessors(&t)).map_err(|e| e.to_string()), toml_order),
+            // keys and values asked for together with their spans: the data must be the same
+            ("toml::from_str with Spanned keys", toml::from_str::<SpannedRoot>(text).map(|t| spanned_root_to_r(&t)).map_err(|e| e.to_string()), KeyOrder::Any),
+            ("toml_edit::de::from_str with Spanned keys", toml_edit::de::from_str::<SpannedRoot>(text).map(|t| spanned_root_to_r(&t)).map_err(|e| e.to_string()), KeyOrder::Any),
         ]
     })
 }
